@@ -96,6 +96,15 @@ package evaluator
 //@   assigns EC
 //@   loop 1 invariant unpackedKwargs != nil && fresh(unpackedKwargs) && unpackedKwargs.Pairs != nil && fresh(unpackedKwargs.Pairs) && *unpackedKwargs.Pairs != nil && fresh(*unpackedKwargs.Pairs)
 //@   loop 1 invariant fresh(args)
+// C08: one argument node per iteration, in the order written; every evaluating call of the iteration is on that
+// node (as ** expansion, else as * expansion, else as an ordinary expression), and what it contributes is appended
+// after what the earlier arguments contributed
+//@   also     C08
+//@   loop 1 step ncalls > prev(ncalls) && ncalls <= prev(ncalls) + 3
+//@   loop 1 step called(prev(ncalls), evaluator.unpackObjExpansion) && arg1(prev(ncalls)) == argNodes[rangeindex] && arg2(prev(ncalls)) == env
+//@   loop 1 step ncalls >= prev(ncalls) + 2 ==> called(prev(ncalls) + 1, evaluator.unpackArrExpansion) && arg1(prev(ncalls) + 1) == argNodes[rangeindex] && arg2(prev(ncalls) + 1) == env
+//@   loop 1 step ncalls == prev(ncalls) + 3 ==> called(prev(ncalls) + 2, evaluator.Eval) && arg1(prev(ncalls) + 2) == argNodes[rangeindex] && arg2(prev(ncalls) + 2) == env && !isT(result(prev(ncalls) + 2), *object.PanErr) && len(args) == prev(len(args)) + 1 && args[prev(len(args))] == result(prev(ncalls) + 2)
+//@   loop 1 step len(args) >= prev(len(args)) && (forall i int :: {args[i]} 0 <= i && i < prev(len(args)) ==> args[i] == prev(args[i]))
 //
 // keyword-argument tables of the syntax tree hold an expression for every key (parser output, assumed)
 //@ invariant assumed map[*ast.Ident]ast.Expr: self != nil
@@ -231,6 +240,7 @@ package evaluator
 //
 //@ props C12 C07 C15 C19
 // appendStackTrace returns the error it was given (kind and message untouched); it writes only the trace.
+//@ shared_errors: object.BuiltInNotImplemented
 //@ func evaluator.appendStackTrace(e, src) res
 //@   requires e != nil && src != nil
 //@   ensures  res == e
@@ -824,3 +834,17 @@ package evaluator
 //@   loop 2 invariant 0 - 1 <= i && i < len(pieces) && ncalls == 2 * (len(pieces) - 1 - i)
 //@   loop 2 invariant forall j int :: {called(2 * j, evaluator.Eval)} 0 <= j && j < len(pieces) - 1 - i ==> called(2 * j, evaluator.Eval) && arg1(2 * j) == pieces[len(pieces) - 1 - j].Expr && arg2(2 * j) == env && !isT(result(2 * j), *object.PanErr) && called(2 * j + 1, evaluator.builtInCallProp)
 //@   loop 2 invariant forall k int :: {pieces[k]} 0 <= k && k < len(pieces) ==> pieces[k] != nil && pieces[k] == formerAt(node, k)
+//
+// [e1, *a, e2, ...]: one element node per iteration, in the order written; the calls of the iteration are on that
+// node (as * expansion, else as an ordinary expression); what it contributes is appended after the earlier elements
+//@ props C08
+//@ func evaluator.evalArr(node, env) res
+//@   requires node != nil && env != nil
+//@   ensures  isVal(res)
+//@   assigns  EC
+//@   loop 1 invariant fresh(elems)
+//@   loop 1 step ncalls > prev(ncalls) && ncalls <= prev(ncalls) + 2
+//@   loop 1 step called(prev(ncalls), evaluator.unpackArrExpansion) && arg1(prev(ncalls)) == node.Elems[rangeindex] && arg2(prev(ncalls)) == env
+//@   loop 1 step ncalls == prev(ncalls) + 2 ==> called(prev(ncalls) + 1, evaluator.Eval) && arg1(prev(ncalls) + 1) == node.Elems[rangeindex] && arg2(prev(ncalls) + 1) == env && !isT(result(prev(ncalls) + 1), *object.PanErr) && len(elems) == prev(len(elems)) + 1 && elems[prev(len(elems))] == result(prev(ncalls) + 1)
+//@   loop 1 step len(elems) >= prev(len(elems)) && (forall i int :: {elems[i]} 0 <= i && i < prev(len(elems)) ==> elems[i] == prev(elems[i]))
+
